@@ -226,6 +226,7 @@ def eq_simplifier(a, b):
         if (
             a.args[1].op == "BVV"
             and a.args[0].op == "__and__"
+            and len(a.args[0].args) == 2
             and a.args[0].args[0].op == "BVV"
             and a.args[0].args[0].args[0] == a.args[1].args[0]
             and _is_single_bit(a.args[1].args[0])
@@ -326,6 +327,7 @@ def ne_simplifier(a, b):
         if (
             a.args[1].op == "BVV"
             and a.args[0].op == "__and__"
+            and len(a.args[0].args) == 2
             and a.args[0].args[0].op == "BVV"
             and a.args[0].args[0].args[0] == a.args[1].args[0]
             and _is_single_bit(a.args[1].args[0])
